@@ -210,7 +210,10 @@ def parse_rvalue(s):
             k = find_top(s, " as ")
             if k >= 0:
                 rest = s[k + 4:]
-                j = rest.rfind("(")
+                j = -1
+                for i_, c_, d_ in scan(rest):
+                    if c_ == "(" and d_ == 0:
+                        j = i_
                 kind = rest[j + 1:-1].strip()
                 if j > 0 and re.match(r"[A-Za-z]+(\(.*\))?$", kind) and kind.split("(")[0] in (
                         "IntToInt", "PointerCoercion", "Transmute", "PtrToPtr", "IntToFloat", "FloatToInt",
@@ -357,7 +360,17 @@ def parse_statement(line):
     if k < 0:
         raise ParseError("statement %r" % s)
     lhs, rhs = s[:k], s[k + 3:]
-    arrow = find_top(rhs, " -> ")
+    arrow = -1
+    start = 0
+    while True:
+        k2 = find_top(rhs, " -> ", start)
+        if k2 < 0:
+            break
+        tail = rhs[k2 + 4:]
+        if tail.startswith("[") or tail.startswith("unwind"):
+            arrow = k2
+            break
+        start = k2 + 1
     if arrow >= 0:
         call, targets = rhs[:arrow].strip(), rhs[arrow + 4:].strip()
         t = parse_targets(targets) if targets.startswith("[") else {"unwind": targets}
